@@ -293,6 +293,12 @@ class URLInfo(object):
             raise ValueError('Invalid IPv6 address: {}'
                              .format(ascii(hostname)))
 
+        if '%' in hostname:
+            # Newer versions of ipaddress accept any text as a zone
+            # identifier (spaces, upper case, non-ASCII, brackets).
+            raise ValueError('IPv6 zone identifier not supported: {}'
+                             .format(ascii(hostname)))
+
         hostname = ipaddress.IPv6Address(hostname[1:-1]).compressed
 
         return hostname
